@@ -60,6 +60,80 @@ def inst_C05(profile):
 
 
 
+import os
+import re
+
+
+def theorems_of(pid):
+    """names of the theorems stated in coq/properties/<pid>.v"""
+    from .common import COQ
+    path = os.path.join(COQ, "properties", "%s.v" % pid)
+    if not os.path.exists(path):
+        return []
+    return re.findall(r"^Theorem\s+(\w+)", open(path).read(), flags=re.M)
+
+
+def okb_lift(thms_per_codec, codecs=CODECS):
+    """codec_ok obligations, each lifted through generic theorems: the statement of every listed
+    theorem is re-established for the real codec on every run"""
+    def f(profile):
+        out = []
+        for c in CODECS:
+            lifts = [t.replace("@C", c) for t in thms_per_codec] if c in codecs else []
+            out.append({"name": "codec_ok(%s)" % c, "expr": "codec_okb %s" % c,
+                        "witness": "codec_ok_witness %s" % c, "witness_meaning": OKB_MEANING,
+                        "lift": lifts})
+        return out
+    return f
+
+
+def inst_C07(profile):
+    obs = okb(profile)
+    for c in sorted(COMP):
+        obs.append({"name": "complement of %s maps symbols to symbols" % c,
+                    "expr": "closedb %s (comp_sym %s)" % (c, c),
+                    "lift": ["closedb_sound %s (comp_sym %s) @INST" % (c, c)]})
+        obs.append({"name": "complement of %s twice is the identity on symbols" % c,
+                    "expr": "agreeb %s (fun x => total (comp_sym %s) (total (comp_sym %s) x)) (fun x => x)" % (c, c, c),
+                    "lift": ["agreeb_sound %s _ _ @INST" % c]})
+    return obs
+
+
+COMP = {"dna", "iupac", "mdna", "miupac", "degen"}
+
+
+def inst_C20(profile):
+    obs = okb(profile)
+    for c in ("mdna", "miupac"):
+        for f in ("mask_sym", "unmask_sym", "comp_sym"):
+            obs.append({"name": "%s of %s maps symbols to symbols" % (f, c),
+                        "expr": "closedb %s (%s %s)" % (c, f, c),
+                        "lift": ["closedb_sound %s (%s %s) @INST" % (c, f, c)]})
+        for f in ("mask_sym", "unmask_sym"):
+            obs.append({"name": "%s of %s commutes with complement on symbols" % (f, c),
+                        "expr": "agreeb %s (fun x => total (comp_sym %s) (total (%s %s) x)) "
+                                "(fun x => total (%s %s) (total (comp_sym %s) x))" % (c, c, f, c, f, c, c),
+                        "lift": ["agreeb_sound %s _ _ @INST" % c]})
+    m, u = "mask_sym miupac", "unmask_sym miupac"
+    for name, f, g, h in [("mask is idempotent (5-bit)", m, m, m), ("unmask is idempotent (5-bit)", u, u, u),
+                          ("unmask after mask is unmask (5-bit)", m, u, u),
+                          ("mask after unmask is mask (5-bit)", u, m, m)]:
+        obs.append({"name": name, "expr": "agreeb miupac (fun x => total (%s) (total (%s) x)) (total (%s))" % (g, f, h),
+                    "lift": ["agreeb_sound miupac _ _ @INST"]})
+    for f in ("mask_sym mdna", "unmask_sym mdna"):
+        obs.append({"name": "%s is an involution (4-bit)" % f,
+                    "expr": "agreeb mdna (fun x => total (%s) (total (%s) x)) (fun x => x)" % (f, f),
+                    "lift": ["agreeb_sound mdna _ _ @INST"]})
+    obs.append({"name": "5-bit masking: case forms and nucleotide set", "expr": "mask5_okb miupac",
+                "lift": ["C20.C20_mask5_symbols miupac @INST"]})
+    obs.append({"name": "4-bit masking: toggles A,C,G,T,N; gap and pad fixed", "expr": "mask4_okb mdna",
+                "lift": ["C20.C20_mask4_symbols mdna @INST"]})
+    return obs
+
+
+PROOF_IMPORTS = ["Bits", "Codec", "Tables", "Spec", "Derive", "C05Check", "SeqModel", "SeqProofs", "SeqProofs2",
+                 "SymMap", "C20Check"]
+
 C05_THEOREMS = ["C05_tables_consistent", "C05_dna_alphabet", "C05_iupac_nucleotide_sets", "C05_amino_codons",
                 "C05_text_literal_bytes", "C05_degenerate_strong_weak", "C05_complement_letters"]
 
@@ -71,12 +145,30 @@ REGISTRY = {
                      "values (as ASCII input and as bit pattern) of one codec's regenerated tables, for the dev and "
                      "the release build; evaluations = table entries swept",
                 notes=["text::Dna::try_from_bits accepts every byte: documented ('a literal interpretation of bytes')"]),
-    "C01": dict(theorems=[], instances=okb, generators=[(c, P.gen_C01) for c in ALL]),
+    "C01": dict(theorems=theorems_of("C01"), imports=PROOF_IMPORTS,
+                extra_imports=["From BioSeqProps Require Import C01."],
+                instances=okb_lift(["C01.C01_parse_one_symbol_per_byte @C (codec_okb_sound @C @INST)",
+                                    "C01.C01_display_parse_roundtrip @C (codec_okb_sound @C @INST)"]),
+                generators=[(c, P.gen_C01) for c in ALL]),
     "C02": dict(theorems=[], instances=okb, generators=[(c, P.gen_C02) for c in ALL]),
-    "C03": dict(theorems=[], instances=okb, generators=[(c, P.gen_C03) for c in ALL]),
+    "C03": dict(theorems=theorems_of("C03"), imports=PROOF_IMPORTS,
+                extra_imports=["From BioSeqProps Require Import C03."],
+                instances=okb_lift(["C03.C03_range_out_of_bounds_panics @C (codec_okb_sound @C @INST)",
+                                    "C03.C03_nth_in_bounds @C (codec_okb_sound @C @INST)",
+                                    "C03.C03_get @C (codec_okb_sound @C @INST)"]),
+                generators=[(c, P.gen_C03) for c in ALL]),
     "C04": dict(theorems=[], instances=okb, generators=[(c, P.gen_C04) for c in ALL]),
-    "C06": dict(theorems=[], instances=okb, generators=[(c, P.gen_C06) for c in ALL]),
-    "C07": dict(theorems=[], instances=okb, generators=[(c, P.gen_C07) for c in ALL]),
+    "C06": dict(theorems=theorems_of("C06"), imports=PROOF_IMPORTS,
+                extra_imports=["From BioSeqProps Require Import C06."],
+                instances=okb_lift(["C06.C06_insert @C (codec_okb_sound @C @INST)",
+                                    "C06.C06_remove @C debug_assertions (codec_okb_sound @C @INST)"]),
+                assumptions=["aliasing (a clone sharing storage with its source) cannot be exhibited by an immutable "
+                             "model: the clause 'clones and slices copied out earlier keep their old content' is "
+                             "covered by re-observing every register after every edit in the correspondence only"],
+                generators=[(c, P.gen_C06) for c in ALL]),
+    "C07": dict(theorems=theorems_of("C07"), imports=PROOF_IMPORTS,
+                extra_imports=["From BioSeqProps Require Import C07."],
+                instances=inst_C07, generators=[(c, P.gen_C07) for c in ALL]),
     "C08": dict(theorems=[], instances=okb, generators=[(c, P.gen_C08) for c in ALL]),
     "C09": dict(theorems=[], instances=okb, generators=[(c, P.gen_C09) for c in ALL]),
     "C10": dict(theorems=[], instances=okb, generators=[(c, P.gen_C10) for c in ALL]),
@@ -89,5 +181,7 @@ REGISTRY = {
     "C18": dict(theorems=[], instances=okb, generators=[(c, P.gen_C18) for c in ALL]),
     "C19": dict(theorems=[], instances=okb,
                 generators=[("dna", P.gen_C19_conv)] + [(c, P.gen_C19_trim) for c in ALL]),
-    "C20": dict(theorems=[], instances=okb, generators=[("mdna", P.gen_C20), ("miupac", P.gen_C20)]),
+    "C20": dict(theorems=theorems_of("C20"), imports=PROOF_IMPORTS,
+                extra_imports=["From BioSeqProps Require Import C20."],
+                instances=inst_C20, generators=[("mdna", P.gen_C20), ("miupac", P.gen_C20)]),
 }
